@@ -98,6 +98,14 @@ pub fn check(q: &DpQuery, w: &DpWorld, params: &DpParameters, r: &mut Rng, rep: 
             pin.insert(t.node.clone(), rows.clone());
         }
     }
+    // so are the noised outputs: an aggregation that consumes the result of another DP aggregation is
+    // measured given that earlier release (composition accounts for each level separately); the inputs
+    // of the noise nodes, which are what is measured, are read before their outputs are pinned
+    for n in agg_noises.iter() {
+        if let Some(rows) = base.stages.get(&n.node) {
+            pin.insert(n.node.clone(), rows.clone());
+        }
+    }
     // clipping bounds from the calibration events
     let bound_of = |n: &NoiseNode, col: &str| -> Option<f64> {
         c.events
